@@ -1,5 +1,5 @@
 (** C03 — soundness of the flattening-certificate checkers of Flat/Cert.v. *)
-From Coq Require Import QArith Lqa List Bool.
+From Coq Require Import ZArith QArith Lqa Lia List Bool.
 From CV Require Import Base.Dy Flat.Curves Flat.CurvesProofs Flat.Cert.
 Import ListNotations.
 Open Scope Q_scope.
@@ -123,6 +123,22 @@ Qed.
 (** ** Compatibility of the helper functions with Qeq (needed because the checker reduces fractions) *)
 From Coq Require Import Morphisms Setoid.
 
+Lemma strip2_spec n d : (Zpos n * Zpos (snd (strip2 n d)) = Zpos (fst (strip2 n d)) * Zpos d)%Z.
+Proof.
+  revert d. induction n as [n IH|n IH|]; intros d; try (cbn; reflexivity).
+  destruct d as [d|d|]; try (cbn [strip2 fst snd]; reflexivity).
+  cbn [strip2]. specialize (IH d). rewrite (Pos2Z.inj_xO n), (Pos2Z.inj_xO d). nia.
+Qed.
+
+Lemma Qstrip_correct q : Qstrip q == q.
+Proof.
+  destruct q as [n d]. unfold Qstrip. cbn [Qnum Qden]. destruct n as [|n|n]; [reflexivity| |].
+  - pose proof (strip2_spec n d) as H. destruct (strip2 n d) as [n' d']. cbn [fst snd] in H.
+    unfold Qeq. cbn [Qnum Qden]. lia.
+  - pose proof (strip2_spec n d) as H. destruct (strip2 n d) as [n' d']. cbn [fst snd] in H.
+    unfold Qeq. cbn [Qnum Qden]. rewrite <- !Pos2Z.opp_pos. lia.
+Qed.
+
 Lemma Qleb_compat a a' b b' : a == a' -> b == b' -> Qleb a b = Qleb a' b'.
 Proof.
   intros Ha Hb. destruct (Qleb a b) eqn:E1, (Qleb a' b') eqn:E2; try reflexivity.
@@ -132,6 +148,9 @@ Qed.
 
 Lemma Qleb_false a b : Qleb a b = false -> b < a.
 Proof. intros E. destruct (Qlt_le_dec b a); [assumption|]. apply Qleb_le in q. congruence. Qed.
+
+Global Instance Qstrip_proper : Proper (Qeq ==> Qeq) Qstrip.
+Proof. intros a b H. transitivity a; [apply Qstrip_correct|]. transitivity b; [exact H|symmetry; apply Qstrip_correct]. Qed.
 
 Global Instance sqr_proper : Proper (Qeq ==> Qeq) sqr.
 Proof. intros a a' H. unfold sqr. rewrite H. reflexivity. Qed.
@@ -170,14 +189,14 @@ Proof.
   destruct q0 as [x0 y0], q1 as [x1 y1], q2 as [x2 y2]. intros H0 H1.
   unfold dist2, quad_piece_bound2, pred, vsub, nrm2, vdot, vcross, quadB, lerp, lerp1, px, py. cbn [fst snd].
   set (cx := x2 - x0). set (cy := y2 - y0). set (dx := x1 - x0). set (dy := y1 - y0).
-  destruct (Qleb (Qred (Qred cx * Qred cx + Qred cy * Qred cy)) 0) eqn:E.
+  destruct (Qleb (Qstrip (Qstrip cx * Qstrip cx + Qstrip cy * Qstrip cy)) 0) eqn:E.
   - (* degenerate chord: q2 = q0 *)
-    apply Qleb_le in E. rewrite !Qred_correct in E.
+    apply Qleb_le in E. rewrite !Qstrip_correct in E.
     pose proof (Qsq_nonneg cx). pose proof (Qsq_nonneg cy).
     assert (Zx: cx * cx == 0) by lra. assert (Zy: cy * cy == 0) by lra.
     assert (Cx: cx == 0). { destruct (Qeq_dec cx 0) as [e|n]; [exact e|]. exfalso. apply n. apply Qmult_integral in Zx. tauto. }
     assert (Cy: cy == 0). { destruct (Qeq_dec cy 0) as [e|n]; [exact e|]. exfalso. apply n. apply Qmult_integral in Zy. tauto. }
-    exists 0. split; [lra|split; [lra|]]. rewrite !Qred_correct.
+    exists 0. split; [lra|split; [lra|]]. rewrite !Qstrip_correct.
     set (f := sg * (1 - sg)). assert (F0: 0 <= f) by (apply Qmult_le_0_compat; lra).
     assert (F1: f <= 1 # 4) by apply t1t_le_quarter.
     assert (F2: f * f <= (1 # 4) * (1 # 4)) by (apply Qsq_le_mono; lra).
@@ -190,9 +209,9 @@ Proof.
     assert (0 <= (dx * dx + dy * dy) * ((1 # 16) - f * f)).
     { apply Qmult_le_0_compat; [pose proof (Qsq_nonneg dx); pose proof (Qsq_nonneg dy); lra|lra]. }
     lra.
-  - apply Qleb_false in E. rewrite !Qred_correct in E.
+  - apply Qleb_false in E. rewrite !Qstrip_correct in E.
     destruct (quad_piece_core cx cy dx dy sg E H0 H1) as [lam [L0 [L1 HB]]].
-    exists lam. split; [exact L0|split; [exact L1|]]. rewrite !Qred_correct.
+    exists lam. split; [exact L0|split; [exact L1|]]. rewrite !Qstrip_correct.
     assert (Ex: bq x0 x1 x2 sg - (x0 + cx * lam) == 2 * dx * sg * (1 - sg) + cx * sg * sg - lam * cx) by (unfold bq, dx, cx; ring).
     assert (Ey: bq y0 y1 y2 sg - (y0 + cy * lam) == 2 * dy * sg * (1 - sg) + cy * sg * sg - lam * cy) by (unfold bq, dy, cy; ring).
     rewrite Ex, Ey. unfold sqr. eapply Qle_trans; [exact HB|]. lra.
@@ -305,11 +324,11 @@ Proof.
   set (d2x := x2 - x0). set (d2y := y2 - y0).
   set (f1 := sg * (1 - sg) * (1 - sg)). set (f2 := sg * sg * (1 - sg)).
   destruct (f12_sq_le sg H0 H1) as [F1 [F2 F12]]. fold f1 f2 in F1, F2, F12.
-  destruct (Qleb (Qred (Qred cx * Qred cx + Qred cy * Qred cy)) 0) eqn:E.
-  - apply Qleb_le in E. rewrite !Qred_correct in E.
+  destruct (Qleb (Qstrip (Qstrip cx * Qstrip cx + Qstrip cy * Qstrip cy)) 0) eqn:E.
+  - apply Qleb_le in E. rewrite !Qstrip_correct in E.
     pose proof (Qsq_nonneg cx). pose proof (Qsq_nonneg cy).
     assert (Cx: cx == 0) by (apply Qsq_zero; lra). assert (Cy: cy == 0) by (apply Qsq_zero; lra).
-    exists 0. split; [lra|split; [lra|]]. rewrite !Qred_correct.
+    exists 0. split; [lra|split; [lra|]]. rewrite !Qstrip_correct.
     assert (Ex: bc x0 x1 x2 x3 sg - (x0 + cx * 0) == 3 * d1x * f1 + 3 * d2x * f2 + cx * (sg * sg * sg)) by (unfold bc, d1x, d2x, cx, f1, f2; ring).
     assert (Ey: bc y0 y1 y2 y3 sg - (y0 + cy * 0) == 3 * d1y * f1 + 3 * d2y * f2 + cy * (sg * sg * sg)) by (unfold bc, d1y, d2y, cy, f1, f2; ring).
     rewrite Ex, Ey, Cx, Cy.
@@ -326,9 +345,9 @@ Proof.
                 == 9 * (f1 * f1 * n1 + 2 * (f1 * f2 * g) + f2 * f2 * n2)) by (unfold n1, n2, g; ring).
     rewrite E3.
     assert (0 <= M * ((1 # 16) - (f1 + f2) * (f1 + f2))) by (apply Qmult_le_0_compat; lra). lra.
-  - apply Qleb_false in E. rewrite !Qred_correct in E.
+  - apply Qleb_false in E. rewrite !Qstrip_correct in E.
     destruct (cube_piece_core cx cy d1x d1y d2x d2y sg E H0 H1) as [lam [L0 [L1 HB]]].
-    exists lam. split; [exact L0|split; [exact L1|]]. rewrite !Qred_correct.
+    exists lam. split; [exact L0|split; [exact L1|]]. rewrite !Qstrip_correct.
     assert (Ex: bc x0 x1 x2 x3 sg - (x0 + cx * lam) == 3 * d1x * f1 + 3 * d2x * f2 + cx * (sg * sg * sg) - lam * cx) by (unfold bc, d1x, d2x, cx, f1, f2; ring).
     assert (Ey: bc y0 y1 y2 y3 sg - (y0 + cy * lam) == 3 * d1y * f1 + 3 * d2y * f2 + cy * (sg * sg * sg) - lam * cy) by (unfold bc, d1y, d2y, cy, f1, f2; ring).
     rewrite Ex, Ey. exact HB.
@@ -450,48 +469,60 @@ Proof. intros a a' Ha b b' Hb c c' Hc d d' Hd t t' Ht. unfold bc. rewrite Ha, Hb
 Global Instance lerp1_proper : Proper (Qeq ==> Qeq ==> Qeq ==> Qeq) lerp1.
 Proof. intros a a' Ha b b' Hb t t' Ht. unfold lerp1. rewrite Ha, Hb, Ht. reflexivity. Qed.
 
+Lemma lerp1s_eq a b t : lerp1s a b t == lerp1 a b t.
+Proof. unfold lerp1s, lerp1. rewrite !Qstrip_correct. reflexivity. Qed.
+
+Global Instance lerp1s_proper : Proper (Qeq ==> Qeq ==> Qeq ==> Qeq) lerp1s.
+Proof. intros a a' Ha b b' Hb t t' Ht. rewrite !lerp1s_eq, Ha, Hb, Ht. reflexivity. Qed.
+
+Lemma blq_f_eq a b c u v : blq_f a b c u v == blq a b c u v.
+Proof. unfold blq_f. rewrite !lerp1s_eq. unfold lerp1, blq. ring. Qed.
+
+Lemma blc_f_eq a b c d u v w : blc_f a b c d u v w == blc a b c d u v w.
+Proof. unfold blc_f. cbv zeta. rewrite !lerp1s_eq. unfold lerp1, blc. ring. Qed.
+
 Lemma sub_eval_q a b c s u t : s < u ->
-  bq (Qred (blq a b c s s)) (Qred (blq a b c s u)) (Qred (blq a b c u u)) ((t - s) / (u - s)) == bq a b c t.
-Proof. intros H. rewrite !Qred_correct, bq_split. apply bq_compat. field. lra. Qed.
+  bq (blq_f a b c s s) (blq_f a b c s u) (blq_f a b c u u) ((t - s) / (u - s)) == bq a b c t.
+Proof. intros H. rewrite !blq_f_eq, bq_split. apply bq_compat. field. lra. Qed.
 
 Lemma sub_eval_c a b c d s u t : s < u ->
-  bc (Qred (blc a b c d s s s)) (Qred (blc a b c d s s u)) (Qred (blc a b c d s u u)) (Qred (blc a b c d u u u)) ((t - s) / (u - s))
+  bc (blc_f a b c d s s s) (blc_f a b c d s s u) (blc_f a b c d s u u) (blc_f a b c d u u u) ((t - s) / (u - s))
   == bc a b c d t.
-Proof. intros H. rewrite !Qred_correct, bc_split. apply bc_compat. field. lra. Qed.
+Proof. intros H. rewrite !blc_f_eq, bc_split. apply bc_compat. field. lra. Qed.
 
 Lemma sigma_range s u t : s < u -> s <= t -> t <= u -> 0 <= (t - s) / (u - s) /\ (t - s) / (u - s) <= 1.
 Proof. intros. split; [apply Qle_shift_div_l; lra|apply Qle_shift_div_r; lra]. Qed.
 
 Lemma quad_pb_sound p0 p1 p2 s u t : s < u -> s <= t -> t <= u ->
   exists lam, 0 <= lam /\ lam <= 1 /\
-    dist2 (quadB p0 p1 p2 t) (lerp (quadB p0 p1 p2 s) (quadB p0 p1 p2 u) lam) <= quad_pb p0 p1 p2 s u.
+    dist2 (quadB_f p0 p1 p2 t) (lerp (quadB_f p0 p1 p2 s) (quadB_f p0 p1 p2 u) lam) <= quad_pb p0 p1 p2 s u.
 Proof.
   intros Hsu Hst Htu. destruct (sigma_range s u t Hsu Hst Htu) as [S0 S1].
-  unfold quad_pb, quad_sub.
-  set (q0 := pred (blq (px p0) (px p1) (px p2) s s, blq (py p0) (py p1) (py p2) s s)).
-  set (q1 := pred (blq (px p0) (px p1) (px p2) s u, blq (py p0) (py p1) (py p2) s u)).
-  set (q2 := pred (blq (px p0) (px p1) (px p2) u u, blq (py p0) (py p1) (py p2) u u)).
+  unfold quad_pb, quad_sub_f.
+  set (q0 := (blq_f (px p0) (px p1) (px p2) s s, blq_f (py p0) (py p1) (py p2) s s)).
+  set (q1 := (blq_f (px p0) (px p1) (px p2) s u, blq_f (py p0) (py p1) (py p2) s u)).
+  set (q2 := (blq_f (px p0) (px p1) (px p2) u u, blq_f (py p0) (py p1) (py p2) u u)).
   destruct (quad_piece_sound q0 q1 q2 _ S0 S1) as [lam [L0 [L1 HB]]].
   exists lam. split; [exact L0|split; [exact L1|]]. eapply Qle_trans; [|exact HB].
   apply Qle_lteq. right.
-  unfold dist2, nrm2, vdot, vsub, quadB, lerp, q0, q1, q2, pred, px, py. cbn [fst snd].
-  rewrite !sub_eval_q by exact Hsu. rewrite !Qred_correct, !blq_diag. reflexivity.
+  unfold dist2, nrm2, vdot, vsub, quadB, quadB_f, lerp, q0, q1, q2, px, py. cbn [fst snd].
+  rewrite !sub_eval_q by exact Hsu. rewrite !blq_f_eq, !blq_diag. reflexivity.
 Qed.
 
 Lemma cube_pb_sound p0 p1 p2 p3 s u t : s < u -> s <= t -> t <= u ->
   exists lam, 0 <= lam /\ lam <= 1 /\
-    dist2 (cubeB p0 p1 p2 p3 t) (lerp (cubeB p0 p1 p2 p3 s) (cubeB p0 p1 p2 p3 u) lam) <= cube_pb p0 p1 p2 p3 s u.
+    dist2 (cubeB_f p0 p1 p2 p3 t) (lerp (cubeB_f p0 p1 p2 p3 s) (cubeB_f p0 p1 p2 p3 u) lam) <= cube_pb p0 p1 p2 p3 s u.
 Proof.
   intros Hsu Hst Htu. destruct (sigma_range s u t Hsu Hst Htu) as [S0 S1].
-  unfold cube_pb, cube_sub.
-  set (bx := blc (px p0) (px p1) (px p2) (px p3)). set (by_ := blc (py p0) (py p1) (py p2) (py p3)).
-  set (q0 := pred (bx s s s, by_ s s s)). set (q1 := pred (bx s s u, by_ s s u)).
-  set (q2 := pred (bx s u u, by_ s u u)). set (q3 := pred (bx u u u, by_ u u u)).
+  unfold cube_pb, cube_sub_f.
+  set (bx := blc_f (px p0) (px p1) (px p2) (px p3)). set (by_ := blc_f (py p0) (py p1) (py p2) (py p3)).
+  set (q0 := (bx s s s, by_ s s s)). set (q1 := (bx s s u, by_ s s u)).
+  set (q2 := (bx s u u, by_ s u u)). set (q3 := (bx u u u, by_ u u u)).
   destruct (cube_piece_sound q0 q1 q2 q3 _ S0 S1) as [lam [L0 [L1 HB]]].
   exists lam. split; [exact L0|split; [exact L1|]]. eapply Qle_trans; [|exact HB].
   apply Qle_lteq. right.
-  unfold dist2, nrm2, vdot, vsub, cubeB, lerp, q0, q1, q2, q3, pred, bx, by_, px, py. cbn [fst snd].
-  rewrite !sub_eval_c by exact Hsu. rewrite !Qred_correct, !blc_diag. reflexivity.
+  unfold dist2, nrm2, vdot, vsub, cubeB, cubeB_f, lerp, q0, q1, q2, q3, bx, by_, px, py. cbn [fst snd].
+  rewrite !sub_eval_c by exact Hsu. rewrite !blc_f_eq, !blc_diag. reflexivity.
 Qed.
 
 Lemma chk_ends_spec l a b : chk_ends l a b = true ->
@@ -527,6 +558,37 @@ Proof.
   intros t T0 T1. apply (chk_pieces_cover B pb bound slack PB l HP); [lra|lra|exact Hlen].
 Qed.
 
+(** the checker evaluates the curve with normalisation after every step; the guarantee is about the plain
+    Bernstein form *)
+Lemma closeP_ext p p' q q' s : peq p p' -> peq q q' -> closeP p q s -> closeP p' q' s.
+Proof. unfold peq, closeP. intros [A1 A2] [B1 B2]. rewrite A1, A2, B1, B2. tauto. Qed.
+
+Lemma dist2_ext p p' q q' : peq p p' -> peq q q' -> dist2 p q == dist2 p' q'.
+Proof. unfold peq, dist2, nrm2, vdot, vsub, px, py. cbn [fst snd]. intros [A1 A2] [B1 B2]. rewrite A1, A2, B1, B2. reflexivity. Qed.
+
+Lemma lerp_ext p p' q q' lam : peq p p' -> peq q q' -> peq (lerp p q lam) (lerp p' q' lam).
+Proof. unfold peq, lerp, px, py. cbn [fst snd]. intros [A1 A2] [B1 B2]. rewrite A1, A2, B1, B2. split; reflexivity. Qed.
+
+Lemma peq_refl p : peq p p. Proof. split; reflexivity. Qed.
+
+Lemma flat_cert_ok_ext B B' a b l bound slack : (forall t, peq (B t) (B' t)) ->
+  flat_cert_ok B a b l bound slack -> flat_cert_ok B' a b l bound slack.
+Proof.
+  intros HB [E [V [S C]]]. split; [exact E|]. split.
+  - eapply Forall_impl; [|exact V]. intros x Hx. cbv beta in *. eapply closeP_ext; [apply HB|apply peq_refl|exact Hx].
+  - split; [exact S|]. intros t T0 T1. destruct (C t T0 T1) as [s [v [u [w [lam [A [H1 [H2 [H3 [H4 [H5 H6]]]]]]]]]]].
+    exists s, v, u, w, lam. split; [exact A|]. split; [exact H1|]. split; [exact H2|]. split; [exact H3|]. split; [exact H4|].
+    split.
+    + rewrite <- (dist2_ext _ _ _ _ (HB t) (lerp_ext _ _ _ _ lam (HB s) (HB u))). exact H5.
+    + eapply closeP_ext; [apply lerp_ext; apply HB|apply peq_refl|exact H6].
+Qed.
+
+Lemma quadB_f_eq p0 p1 p2 t : peq (quadB_f p0 p1 p2 t) (quadB p0 p1 p2 t).
+Proof. unfold peq, quadB_f, quadB, px, py. cbn [fst snd]. rewrite !blq_f_eq, !blq_diag. split; reflexivity. Qed.
+
+Lemma cubeB_f_eq p0 p1 p2 p3 t : peq (cubeB_f p0 p1 p2 p3 t) (cubeB p0 p1 p2 p3 t).
+Proof. unfold peq, cubeB_f, cubeB, px, py. cbn [fst snd]. rewrite !blc_f_eq, !blc_diag. split; reflexivity. Qed.
+
 Theorem chk_flat_quad_sound p0 p1 p2 ts vs tol K slack :
   chk_flat_quad p0 p1 p2 ts vs tol K slack = true ->
   length ts = length vs /\
@@ -534,6 +596,7 @@ Theorem chk_flat_quad_sound p0 p1 p2 ts vs tol K slack :
 Proof.
   unfold chk_flat_quad. rewrite !andb_true_iff. intros [Hl [HE HP]].
   split; [apply Nat.eqb_eq; exact Hl|].
+  apply (flat_cert_ok_ext (quadB_f p0 p1 p2)); [apply quadB_f_eq|].
   exact (flat_cert_sound _ _ _ _ _ _ _ (quad_pb_sound p0 p1 p2) HE HP).
 Qed.
 
@@ -544,6 +607,7 @@ Theorem chk_flat_cube_sound p0 p1 p2 p3 ts vs tol K slack :
 Proof.
   unfold chk_flat_cube. rewrite !andb_true_iff. intros [Hl [HE HP]].
   split; [apply Nat.eqb_eq; exact Hl|].
+  apply (flat_cert_ok_ext (cubeB_f p0 p1 p2 p3)); [apply cubeB_f_eq|].
   exact (flat_cert_sound _ _ _ _ _ _ _ (cube_pb_sound p0 p1 p2 p3) HE HP).
 Qed.
 
